@@ -68,7 +68,7 @@ def _path(ctx, params):
                 if degenerate[i]:
                     h = SReal.of(0)
                 else:
-                    CTX.assume(h.z() != 0, check=False)
+                    CTX.assume(h.z() != 0, check=False, contract="approx_derivative")
                 p = list(x0.data)
                 p[i] = p[i] + h
                 in_stencil[0] = True
